@@ -179,6 +179,7 @@ func enumC09(tier string) [][]uint32 {
 		}
 		// medium tree (raw Pick(3,3,2,1) value 6), sampled k: loops that dominate the remaining work show up here
 		out = append(out, []uint32{5, uint32(e), 6, 0, 0, 0, 7, 1}, []uint32{5, uint32(e), 6, 0, 0, 0, 8, 0}) // tree seed 7 wide, tree seed 8 balanced
+		out = append(out, []uint32{5, uint32(e), 6, 0, 0, 0, 11, 0})                                          // tree seed 11: mostly directories
 		if tier == "thorough" {
 			for b := uint32(0); b < 2; b++ {
 				// raw values 6 and 8 select the medium and large tree classes
@@ -479,7 +480,9 @@ func runC09FS(rc *RunCtx, preCancelled bool) {
 			maxAfter = r.opsAfter
 		}
 		remaining := n - 1 - k
-		if entry.Concurrent && r.opsAfter > bound && r.opsAfter <= bound+60*tree.Entries() {
+		// (no upper limit: the fan-out dispatches every entry at once, so on small trees the unchanged code performs ALL the
+		// remaining work after the context ended - there is nothing left that would tell "more than that" apart)
+		if entry.Concurrent && r.opsAfter > bound {
 			// workers already started (one goroutine per directory entry) each finish their current existence / kind tests
 			viol("in-flight-workers-finish-their-step", fmt.Sprintf("context ended after backend operation %d of %d: %d further backend operations were issued by the %d parallel workers already in flight (bound for a sequential operation %d); returned %v", k, n, r.opsAfter, tree.Entries(), bound, r.err))
 		} else if r.opsAfter > bound {
